@@ -881,7 +881,29 @@ def c16(enc, opts, be, perm_seed):
         if bad: break
     return dict(bad=bad, outcome='ok' if not bad else 'bad', digest=digest)
 
-HANDLERS.update({'c16': c16})
+_c16h_n = [100000]
+def c16h(template, be, o1, o2):
+    """history independence: the text dumped for a value is a function of the value and of the options of THAT call.  Scalars that
+    differ only in a unique six-digit token are dumped (a) under options o2 after the same scalars were dumped under o1, (b) under
+    o2 with nothing before; the two outputs must agree up to the token."""
+    import yaml
+    classes = _c16_classes(be)
+    if not classes: return dict(bad=[], outcome='no_c')
+    bad = []
+    for D, L, dname in classes:
+        _c16h_n[0] += 2; k1 = '%06d' % _c16h_n[0]; k2 = '%06d' % (_c16h_n[0] + 1)
+        mk = lambda k: {template.replace('{}', k): [template.replace('{}', k), 'x'], 'k': template.replace('{}', k)}
+        try:
+            yaml.dump(mk(k1), Dumper=D, **_dump_opts(o1))
+            after = yaml.dump(mk(k1), Dumper=D, **_dump_opts(o2))
+            fresh = yaml.dump(mk(k2), Dumper=D, **_dump_opts(o2))
+        except Exception as e:
+            bad.append(dict(kind='dump_raises', what='%s: dump raised %s' % (dname, type(e).__name__), exc=type(e).__name__, dumper=dname)); continue
+        conv = (lambda t: t.decode(o2['encoding']) if isinstance(t, bytes) else t)
+        if conv(after).replace(k1, k2) != conv(fresh):
+            bad.append(dict(kind='history_dependent', what='%s: the text dumped under %s depends on an earlier dump of the same scalars under %s: %r vs %r' % (dname, {k: v for k, v in o2.items() if v is not None}, {k: v for k, v in o1.items() if v is not None}, conv(after)[:120], conv(fresh)[:120]), dumper=dname))
+    return dict(bad=bad, outcome='ok' if not bad else 'bad')
+HANDLERS.update({'c16': c16, 'c16h': c16h})
 
 # ---------------------------------------------------------------------------------------------------------------
 # C12: multi-document streams keep their boundaries ; C15: output honours the formatting options
@@ -1460,6 +1482,21 @@ def c18(docs, sizes, binary, api, be, bad_at):
         g = yaml.load_all(_Stream(data, sizes), Loader=L)
         next(g); g.close()
         if not disposed: bad.append(dict(kind='not_released', what='%s: closing the load_all generator after one document did not dispose the loader' % be, backend=be))
+        # ... and nothing keeps the loader or the caller's stream alive afterwards
+        import weakref, gc
+        refs = {}
+        class L2(Lb):
+            def __init__(self, stream):
+                Lb.__init__(self, stream); refs['loader'] = weakref.ref(self)
+        for api2 in ('load_all', 'compose_all'):
+            refs.clear()
+            st2 = _Stream(data, sizes); refs['stream'] = weakref.ref(st2)
+            g = getattr(yaml, api2)(st2, Loader=L2)
+            next(g); g.close(); del g, st2
+            gc.collect()
+            alive = [n for n in ('loader', 'stream') if n in refs and refs[n]() is not None]
+            if alive:
+                bad.append(dict(kind='kept_alive', what='%s/%s: after the abandoned iteration and a full gc pass the %s still alive' % (be, api2, ' and the '.join(alive) + (' are' if len(alive) > 1 else ' is')), backend=be)); break
     return dict(bad=bad, outcome=outcome, worst=worst)
 
 HANDLERS.update({'c18': c18})
